@@ -224,5 +224,16 @@ def match_d8(case, kind, detail):
         and any('files' in p.split('/')[2:3] for p, _ in case.tree.files())
 
 
-MATCHERS = {'D11': match_d11, 'D20': match_d20, 'D21': lambda c, k, d: match_d21(c, k, d) or match_d21_internal(c, k, d),
+def match_d25(case, kind, detail):
+    """a MANIFEST entry whose path leaves the directory of its Manifest through '..'"""
+    if not (kind == 'internal' and detail[1:3] == ['Internal', 'AssertionError']):
+        return False
+    for m, ents in pre_manifests(case).items():
+        for e in ents:
+            if e[0] == 'MANIFEST' and '..' in e[1].split('/'):
+                return True
+    return False
+
+
+MATCHERS = {'D25': match_d25, 'D11': match_d11, 'D20': match_d20, 'D21': lambda c, k, d: match_d21(c, k, d) or match_d21_internal(c, k, d),
             'D13': match_d13, 'D12': match_d12, 'D8': match_d8, 'D23': match_d23}
